@@ -23,4 +23,21 @@ def findDefined (tbl : Defined) (cls : Str) : List Str → List Str
   | [] => []
   | s :: outer => if isDefined tbl (s :: outer) cls then s :: outer else findDefined tbl cls outer
 
+/-- LookupDefinedClassFrame: the lexical lookup plus whether a definition was found (the top level included) -/
+def lookupDefined (tbl : Defined) (cls : Str) (frame : List Str) : List Str × Bool :=
+  let f := findDefined tbl cls frame
+  if f != [] then (f, true) else ([], isDefined tbl [] cls)
+
+/-- Where `class X < P` (eval/class.go) looks for its superclass. `pf`/`pns` are what `SeparateNameSpaces`
+splits off a qualified name (`[]`/`[]` for an unqualified one; the result for a qualified name is
+`CalculateFrame pf pns`, given as `qualified`), `bc` the flat list of configured short names,
+`builtin` the frame `Builtin`. A class the program defines itself (found lexically) is NOT the configured
+class that shares its short name in some other frame. -/
+def superclassFrame (tbl : Defined) (bc : List Str) (builtin : List Str) (ctxFrame : List Str)
+    (unqualified : Bool) (noNamespace : Bool) (qualified : List Str) (cls : Str) : List Str :=
+  let own := (lookupDefined tbl cls ctxFrame).2 && unqualified
+  if !own && bc.contains cls && noNamespace then builtin
+  else if unqualified then findDefined tbl cls ctxFrame
+  else qualified
+
 end RubyTi.Namespace
